@@ -356,6 +356,20 @@ empty @is_you(int a, int b) {
 }''', [[a, b] for a in (0, 1, 2, 3, 4) for b in (0, 1)]),
 ]
 
+TEMPLATES += [
+    # a try body that certainly ends in defeat IF it gets there: a fault or an endless loop on the way wins over the defeat
+    ('certain_defeat_not_reached', '''int g = 0;
+empty !boom(int d) { write('x'); write(10 / d); !is_defeat(); }
+empty @is_you(int a, int b) {
+  try { write('t'); write(100 / a); write('q'); !is_defeat(); } %(kind)s { write('h'); }
+  try { write('T'); if (b == 1) { all_is_win(); } !is_defeat(); } %(kind)s { write('H'); }
+  try { write('U'); !boom(b); } %(kind)s { write('G'); }
+  try { write('V'); int[] arr = [1, 2]; write(arr[b - 3]); !is_defeat(); } %(kind)s { write('J'); }
+  try { write('W'); while (b == 3) { g = 0; } !is_defeat(); } %(kind)s { write('K'); }
+  write('>');
+}''', [[a, b] for a in (1, 0) for b in (2, 0, 1, 3, 5)]),
+]
+
 SCOPE_TEMPLATES = [
     ('loop_inside_try', '''int x = 0;
 empty !f() { !truth_is_defeat(x == 1); }
